@@ -10,6 +10,7 @@ import (
 	"unsafe"
 
 	"github.com/cloudwego/gopkg/bufiox"
+	"github.com/cloudwego/gopkg/protocol/thrift"
 	"github.com/cloudwego/gopkg/protocol/thrift/apache"
 )
 
@@ -51,7 +52,11 @@ func (o *c19Len) Len() int { return o.n }
 // ---- registry callbacks ----
 var (
 	c19Args = []interface{}{&struct{ a int }{0}, &struct{ a int }{1}, &struct{ a int }{2}, &struct{ a int }{3}}
-	c19Errs = []error{nil, errors.New("cb error 1"), errors.New("cb error 2"), errors.New("cb error 3")}
+	// what the callbacks return: nil, private values, and well-known sentinels / library values that a
+	// bridge could be tempted to translate (the result must be handed back as it is)
+	c19Errs = []error{nil, errors.New("cb error 1"), io.EOF, errors.New("cb error 3"), io.ErrUnexpectedEOF,
+		thrift.NewProtocolException(thrift.INVALID_DATA, "cb protocol exception"),
+		thrift.NewApplicationException(6, "cb application exception"), io.ErrShortWrite}
 	c19Text = []string{"func `RegisterCheckTStruct` not called", "func `RegisterThriftRead` not called", "func `RegisterThriftWrite` not called"}
 )
 
@@ -75,7 +80,7 @@ func c19ArgIdx(v interface{}) int {
 }
 
 func c19Cb(fid int, v, rw interface{}) error {
-	ret := c19Errs[((fid+c19ArgIdx(v))%4+4)%4]
+	ret := c19Errs[((fid+c19ArgIdx(v))%8+8)%8]
 	c19Last = c19Call{called: true, fid: fid, v: v, rw: rw, ret: ret}
 	return ret
 }
@@ -403,11 +408,11 @@ func init() {
 			for slot := 0; slot < 3; slot++ {
 				for arg := 0; arg < 4; arg++ {
 					g.Add("reg-none", Ls(I(2), Ls(Ls(I(1), I(slot), I(arg)))))
-					for fid := 0; fid < 4; fid++ {
+					for fid := 0; fid < 8; fid++ {
 						g.Add("reg-call", Ls(I(2), Ls(Ls(I(0), I(slot), I(fid)), Ls(I(1), I(slot), I(arg)))))
 						g.Add("reg-unreg", Ls(I(2), Ls(Ls(I(0), I(slot), I(fid)), Ls(I(0), I(slot), I(-1)), Ls(I(1), I(slot), I(arg)))))
 						g.Add("reg-other", Ls(I(2), Ls(Ls(I(0), I((slot+1)%3), I(fid)), Ls(I(0), I((slot+2)%3), I(fid)), Ls(I(1), I(slot), I(arg)))))
-						g.Add("reg-replace", Ls(I(2), Ls(Ls(I(0), I(slot), I(fid)), Ls(I(0), I(slot), I((fid+1)%4)), Ls(I(1), I(slot), I(arg)), Ls(I(1), I(slot), I((arg+1)%4)))))
+						g.Add("reg-replace", Ls(I(2), Ls(Ls(I(0), I(slot), I(fid)), Ls(I(0), I(slot), I((fid+1)%8)), Ls(I(1), I(slot), I(arg)), Ls(I(1), I(slot), I((arg+1)%4)))))
 					}
 				}
 			}
@@ -416,7 +421,7 @@ func init() {
 				var steps []V
 				for i := 0; i < ln; i++ {
 					if g.R.Intn(2) == 0 {
-						steps = append(steps, Ls(I(0), I(g.R.Intn(3)), I(g.R.Intn(6)-1)))
+						steps = append(steps, Ls(I(0), I(g.R.Intn(3)), I(g.R.Intn(10)-1)))
 					} else {
 						steps = append(steps, Ls(I(1), I(g.R.Intn(3)), I(g.R.Intn(4))))
 					}
